@@ -99,9 +99,42 @@ fn set_ul(e: u16, kind: Option<u16>) -> u16 {
     (e & !UL_KINDS) | kind.unwrap_or(0)
 }
 
-fn u8c(v: u16) -> u8 {
-    // values > 255 are outside every generator's domain; clamp defensively
-    v.min(255) as u8
+/// What a colour index / component above 255 denotes is not settled by the
+/// standards (xterm and VTE ignore the colour, others saturate): the general
+/// generators stay within 0..=255 and the dedicated sub-checks evaluate the
+/// model under both readings and accept either.
+#[derive(Clone, Copy, PartialEq, Eq, Debug)]
+pub enum OutOfRange {
+    /// the value saturates at 255
+    Saturate,
+    /// the colour is consumed but changes nothing
+    Ignore,
+}
+
+thread_local! {
+    static OOR: std::cell::Cell<OutOfRange> = const { std::cell::Cell::new(OutOfRange::Saturate) };
+}
+
+/// Run `f` with the given reading of out-of-range colour values (this thread only).
+pub fn with_out_of_range<T>(mode: OutOfRange, f: impl FnOnce() -> T) -> T {
+    let old = OOR.with(|c| c.replace(mode));
+    let r = f();
+    OOR.with(|c| c.set(old));
+    r
+}
+
+fn idx_color(n: u16) -> Option<MColor> {
+    if n > 255 && OOR.with(|c| c.get()) == OutOfRange::Ignore {
+        return None;
+    }
+    Some(MColor::Idx(n.min(255) as u8))
+}
+
+fn rgb_color(r: u16, g: u16, b: u16) -> Option<MColor> {
+    if (r > 255 || g > 255 || b > 255) && OOR.with(|c| c.get()) == OutOfRange::Ignore {
+        return None;
+    }
+    Some(MColor::Rgb(r.min(255) as u8, g.min(255) as u8, b.min(255) as u8))
 }
 
 /// Apply one SGR sequence (parameter groups as reported by the parser:
@@ -130,12 +163,12 @@ pub fn apply_sgr(mut st: MStyle, groups: &[Vec<u16>]) -> MStyle {
                 }
                 38 | 48 | 58 => {
                     let col = if g[1] == 5 && g.len() >= 3 {
-                        Some(MColor::Idx(u8c(g[2])))
+                        idx_color(g[2])
                     } else if g[1] == 2 && g.len() == 5 {
-                        Some(MColor::Rgb(u8c(g[2]), u8c(g[3]), u8c(g[4])))
+                        rgb_color(g[2], g[3], g[4])
                     } else if g[1] == 2 && g.len() >= 6 {
                         // 38:2:<colour-space>:r:g:b
-                        Some(MColor::Rgb(u8c(g[3]), u8c(g[4]), u8c(g[5])))
+                        rgb_color(g[3], g[4], g[5])
                     } else {
                         None
                     };
@@ -182,13 +215,11 @@ pub fn apply_sgr(mut st: MStyle, groups: &[Vec<u16>]) -> MStyle {
                 let get = |k: usize| groups.get(i + k).filter(|g| g.len() == 1).map(|g| g[0]);
                 let (col, used) = match get(1) {
                     Some(5) => match get(2) {
-                        Some(n) => (Some(MColor::Idx(u8c(n))), 2),
+                        Some(n) => (idx_color(n), 2),
                         None => (None, 1),
                     },
                     Some(2) => match (get(2), get(3), get(4)) {
-                        (Some(r), Some(g), Some(b)) => {
-                            (Some(MColor::Rgb(u8c(r), u8c(g), u8c(b))), 4)
-                        }
+                        (Some(r), Some(g), Some(b)) => (rgb_color(r, g, b), 4),
                         _ => (None, 1),
                     },
                     _ => (None, 0),
